@@ -239,7 +239,9 @@ class MHLHistory:
 
         file_path = os.path.join(asc_mhl_folder_path, ascmhl_chainfile_name)
         if os.path.exists(asc_mhl_folder_path) and not os.path.exists(file_path):
-            raise errors.NoMHLChainException(file_path)
+            # a folder without any manifest is what an interrupted first run leaves behind: there is no history yet
+            if any(name.endswith(ascmhl_file_extension) for name in os.listdir(asc_mhl_folder_path)):
+                raise errors.NoMHLChainException(file_path)
         history.chain = chain_xml_parser.parse(file_path)
         if history.chain.generations:
             for generation in history.chain.generations:
@@ -382,6 +384,9 @@ class MHLHistory:
             file_name = self._new_custom_filename(new_hash_list.process_info.hashlist_custom_basename)
         file_path = os.path.join(self.asc_mhl_path, file_name)
         new_hash_list.generation_number = generation_number
+        if not os.path.exists(self.chain.file_path):
+            # a manifest must never be visible without a chain file: publish an empty chain before the first manifest
+            chain_xml_parser.write_chain(self.chain, None)
         hashlist_xml_parser.write_hash_list(new_hash_list, file_path)
         self.append_hash_list(new_hash_list)
 
